@@ -3,6 +3,7 @@ package main
 import (
 	"github.com/dadrus/heimdall/verif/engine"
 	"github.com/dadrus/heimdall/verif/props/c02"
+	"github.com/dadrus/heimdall/verif/props/c06"
 )
 
 func main() {
@@ -10,6 +11,7 @@ func main() {
 
 	for _, c := range []*engine.Check{
 		c02.Check(),
+		c06.Check(),
 	} {
 		checks[c.ID] = c
 	}
